@@ -129,6 +129,17 @@ func (v *Verifier) evalCall(fr *Frame, st *State, x *ast.CallExpr) Val {
 			fr.oldCur = st
 			defer func() { fr.oldCur = saveCur }()
 			return v.evalSpec(fr, fr.old, x.Args[0])
+		case "before":
+			// before(e): e in the state in which the innermost enclosing loop (with invariants) was
+			// entered - the values its invariants and the cuts in its body may refer to as "at loop entry"
+			if len(fr.loopEntry) == 0 {
+				panic(unsupportedf(x.Pos(), "before() outside a loop with invariants"))
+			}
+			ent := fr.loopEntry[len(fr.loopEntry)-1]
+			saveOld, saveCur := fr.old, fr.oldCur
+			fr.old, fr.oldCur = ent, st
+			defer func() { fr.old, fr.oldCur = saveOld, saveCur }()
+			return v.evalSpec(fr, ent, x.Args[0])
 		case "ite":
 			cond := v.asBool(v.evalSpec(fr, st, x.Args[0]), x.Pos())
 			a := v.evalSpec(fr, st, x.Args[1])
@@ -1201,6 +1212,7 @@ type ModTarget struct {
 	Ref      *Term
 	Lo, Hi   *Term  // absolute index range [Lo, Hi)
 	ObjSh    *Shape // object heap target
+	Any      bool   // wildcard over references (allobjects / allelems): the whole heap of that shape
 }
 
 // resolveModifies evaluates the modifies clause entries in state st (entry state of the call).
@@ -1235,6 +1247,12 @@ func (v *Verifier) resolveModTarget(cf *Frame, st *State, m ast.Expr, pos token.
 				keys = []string{gKsPos}
 			case "iolog":
 				keys = []string{gChanLen, gChanData, gChanMsgs}
+			case "allobjects":
+				// allobjects(T): the fields of every heap object of struct type T may change
+				return []ModTarget{{ObjSh: v.eng.shapeOf(v.resolveType(cf, ce.Args[0])), Ref: nil, Any: true}}
+			case "allelems":
+				// allelems(T): the elements of every array of element type T may change
+				return []ModTarget{{HeapElem: v.eng.shapeOf(v.resolveType(cf, ce.Args[0])), Ref: nil, Any: true}}
 			}
 			if keys != nil {
 				if aid, ok := ce.Args[0].(*ast.Ident); ok && aid.Name == "$any" {
@@ -1348,6 +1366,19 @@ func (v *Verifier) havocModifies(cf *Frame, st *State, pre *State, con *Contract
 	for k, ts := range heapT {
 		d := heapLeaf[k]
 		oldH := v.eng.heap(st, k, v.eng.sliceHeapSort(d))
+		anyRef := false
+		for _, t := range ts {
+			if t.Any {
+				anyRef = true
+			}
+		}
+		if anyRef {
+			st.heaps[k] = c.Fresh("hvheapall", oldH.Sort)
+			if st.log != nil {
+				st.log.heaps[k] = true
+			}
+			continue
+		}
 		// new heap: rows of the touched refs replaced by fresh rows that agree outside the ranges
 		newH := oldH
 		byRef := map[*Term][]ModTarget{}
@@ -1400,7 +1431,15 @@ func (v *Verifier) havocModifies(cf *Frame, st *State, pre *State, con *Contract
 		d := heapLeaf[k]
 		h := v.eng.heap(st, k, v.eng.objHeapSort(d))
 		for _, t := range ts {
-			h = c.Store(h, t.Ref, c.Fresh("hvobj", d.Sort))
+			if t.Any {
+				h = c.Fresh("hvobjall", h.Sort)
+				break
+			}
+		}
+		for _, t := range ts {
+			if !t.Any {
+				h = c.Store(h, t.Ref, c.Fresh("hvobj", d.Sort))
+			}
 		}
 		st.heaps[k] = h
 		if st.log != nil {
